@@ -52,7 +52,7 @@ def render(bbox, size, gen, ts=TS, ocean=False):
         gy = gyy & 255
         for i in range(w):
             if ocean and is_ocean((gx0 + i) // ts, gyy // ts):
-                out[k], out[k + 1], out[k + 2] = OCEAN
+                out[k], out[k + 1], out[k + 2] = ocean if isinstance(ocean, tuple) else OCEAN
             else:
                 out[k] = (gx0 + i) & 255
                 out[k + 1] = gy
